@@ -245,47 +245,73 @@ func R6AcceptList(c *Ctx) {
 				sb = b
 			}
 			n++
+			// the block may be entered from several tests (`a || b`): every incoming edge must be an accept path
+			var alts [][]CondFact
+			if len(sb.Preds) <= 1 {
+				alts = [][]CondFact{FactsAt(sb)}
+			} else {
+				for _, pred := range sb.Preds {
+					fs := append([]CondFact{}, FactsAt(pred)...)
+					if iff, isIf := pred.Instrs[len(pred.Instrs)-1].(*ssa.If); isIf && pred.Succs[0] != pred.Succs[1] {
+						fs = append(fs, CondFact{Cond: iff.Cond, Truth: pred.Succs[0] == sb, If: iff})
+					}
+					alts = append(alts, fs)
+				}
+			}
 			why := ""
-			facts := FactsAt(sb)
 			var cmdEq []int64
 			sendLogs := false
-			taskMatch := false
-			for _, f := range facts {
-				if call, ok := f.Cond.(*ssa.Call); ok && f.Truth && strings.HasSuffix(CalleeName(call), ".SendLogs") {
-					sendLogs = true
-				}
-				bo, ok := f.Cond.(*ssa.BinOp)
-				if !ok || !((bo.Op == token.EQL && f.Truth) || (bo.Op == token.NEQ && !f.Truth)) {
-					continue
-				}
-				for _, pair := range [][2]ssa.Value{{bo.X, bo.Y}, {bo.Y, bo.X}} {
-					if pair[0] == ssa.Value(cmdID) {
-						if v, ok := ConstInt(pair[1]); ok {
-							cmdEq = append(cmdEq, v)
-						}
+			for ai, facts := range alts {
+				cmdEq = nil
+				sendLogs = false
+				taskMatch := false
+				for _, f := range facts {
+					if call, ok := f.Cond.(*ssa.Call); ok && f.Truth && strings.HasSuffix(CalleeName(call), ".SendLogs") {
+						sendLogs = true
 					}
-					if pair[0] == ssa.Value(reqID) {
-						// other side: load of .RequestID of an element of recv.Tasks
-						if la, ok := Deref(pair[1]); ok {
-							if t, f2, base, ok := FieldOf(la); ok && t == PkgAgent+".Job" && f2 == "RequestID" {
-								if DerivesFrom(base, func(v ssa.Value) bool {
-									t3, f3, b3, ok := FieldOf(v)
-									return ok && t3 == PkgAgent+".Agent" && f3 == "Tasks" && b3 == ssa.Value(recv)
-								}) {
-									taskMatch = true
+					bo, ok := f.Cond.(*ssa.BinOp)
+					if !ok || !((bo.Op == token.EQL && f.Truth) || (bo.Op == token.NEQ && !f.Truth)) {
+						continue
+					}
+					for _, pair := range [][2]ssa.Value{{bo.X, bo.Y}, {bo.Y, bo.X}} {
+						if pair[0] == ssa.Value(cmdID) {
+							if v, ok := ConstInt(pair[1]); ok {
+								cmdEq = append(cmdEq, v)
+							}
+						}
+						if pair[0] == ssa.Value(reqID) {
+							// other side: load of .RequestID of an element of recv.Tasks
+							if la, ok := Deref(pair[1]); ok {
+								if t, f2, base, ok := FieldOf(la); ok && t == PkgAgent+".Job" && f2 == "RequestID" {
+									if DerivesFrom(base, func(v ssa.Value) bool {
+										t3, f3, b3, ok := FieldOf(v)
+										return ok && t3 == PkgAgent+".Agent" && f3 == "Tasks" && b3 == ssa.Value(recv)
+									}) {
+										taskMatch = true
+									}
 								}
 							}
 						}
 					}
 				}
-			}
-			switch {
-			case taskMatch:
-				why = "membership: a.Tasks[i].RequestID == RequestID on the receiver's own task list"
-			case len(cmdEq) == 1 && allowed[cmdEq[0]] != "":
-				why = "relay command " + allowed[cmdEq[0]]
-			case len(cmdEq) == 1 && okb && cmdEq[0] == beacon && sendLogs:
-				why = "SendLogs() && CommandID == BEACON_OUTPUT"
+				w := ""
+				switch {
+				case taskMatch:
+					w = "membership: a.Tasks[i].RequestID == RequestID on the receiver's own task list"
+				case len(cmdEq) == 1 && allowed[cmdEq[0]] != "":
+					w = "relay command " + allowed[cmdEq[0]]
+				case len(cmdEq) == 1 && okb && cmdEq[0] == beacon && sendLogs:
+					w = "SendLogs() && CommandID == BEACON_OUTPUT"
+				}
+				if w == "" {
+					why = ""
+					break
+				}
+				if ai == 0 {
+					why = w
+				} else if why != w {
+					why += " | " + w
+				}
 			}
 			if why != "" {
 				c.R.Ok(rule, fname, "return true ["+why+"]", c.pos(ret.Pos()), why, true)
